@@ -528,13 +528,26 @@ def implStmt (sch : Schema) (t : List Row) (s : Stmt) : Outcome × List Row :=
 
 /-! ### Spec: reference table model -/
 
+/-- length in bytes of the UTF-8 sequence that starts with lead byte `b`. -/
+def utf8Len (b : Nat) : Nat := if b < 128 then 1 else if b < 224 then 2 else if b < 240 then 3 else 4
+
+/-- the first `n` characters (UTF-8 sequences) of a byte string; `fuel ≥ length` suffices. -/
+def takeCharsF : Nat → Nat → List Nat → List Nat
+  | 0, _, _ => []
+  | _, 0, _ => []
+  | _, _, [] => []
+  | f + 1, n + 1, b :: rest =>
+    (b :: rest).take (utf8Len b) ++ takeCharsF f n ((b :: rest).drop (utf8Len b))
+
+def takeChars (n : Nat) (bs : List Nat) : List Nat := takeCharsF bs.length n bs
+
 /-- Spec equality of two key values of a column: collation-aware, with a prefix length counted
-in characters (= bytes on the modelled alphabet); NULL is never equal to anything. -/
+in *characters*; NULL is never equal to anything. -/
 def specColEq (ci : Bool) (pl : Nat) : Val → Val → Bool
   | .int a, .int b => a == b
   | .str a, .str b =>
-    let a := if pl > 0 then a.take pl else a
-    let b := if pl > 0 then b.take pl else b
+    let a := if pl > 0 then takeChars pl a else a
+    let b := if pl > 0 then takeChars pl b else b
     if ci then foldCI a == foldCI b else a == b
   | _, _ => false
 
@@ -662,6 +675,15 @@ def regionCiKey (sch : Schema) (t : List Row) (s : Stmt) : Bool :=
   sch.keys.any (fun k => k.1.any (fun c =>
     (sch.cols.getD c {}).ci &&
       anyPair (fun (r1 r2 : Row) => r1.at c != r2.at c && valEq true (r1.at c) (r2.at c)) rows))
+
+/-- Region `prefix_bytes_vs_chars`: a unique index has a prefix length on a column in which the
+statement or the table holds a string with a multi-byte character (the prefix is cut in bytes). -/
+def regionPrefixMultibyte (sch : Schema) (t : List Row) (s : Stmt) : Bool :=
+  let rows := stmtRows sch t s ++ t
+  sch.uniques.any (fun u => (u.1.zip u.2).any (fun cp =>
+    decide (cp.2 > 0) && rows.any (fun r => match r.at cp.1 with
+      | .str b => b.any (fun x => decide (x ≥ 128))
+      | _ => false)))
 
 /-- some replaced row collides with two or more stored rows (Spec state threaded). -/
 def replaceMulti (sch : Schema) : List Row → List Row → Bool
